@@ -62,3 +62,51 @@ def c04(tier, seed):
     c.required_points = ["MUTEX_LOCK_WAIT", "MUTEX_LOCK_RETRY_WON", "BROADCAST_ULT", "BROADCAST_EXT"]
     c.required_counters = ["acquisitions", "nested_acquisitions", "trylock_failed", "acq_by_ext", "acq_by_tasklet"]
     return c
+
+
+def soup(c, harness, profiles, q, seed, mon_args, san_args, n_mon=(8, 60), n_asan=(1, 5), n_tsan=(1, 5),
+         squeeze_args=None, weight=4, extra_sources=(), ldflags=(), cflags=(), env=None):
+    """Common shape: many seeded mon processes cycling through delay profiles (every 4th CPU-squeezed),
+    plus a few asan and tsan processes."""
+    for i, s in enumerate(seeds(seed, n_mon[0] if q else n_mon[1])):
+        prof = profiles[i % len(profiles)]
+        args = ["--seed", s, "--delay", prof, "--watchdog", 60 if q else 240]
+        if i % 4 == 3 and squeeze_args is not None:
+            args += ["--squeeze", 2] + list(squeeze_args(q))
+        else:
+            args += list(mon_args(q))
+        c.add(Run(harness, "mon", args, weight=weight, tag="mon%d" % i, extra_sources=extra_sources,
+                  ldflags=ldflags, cflags=cflags, env=env))
+    for i, s in enumerate(seeds(seed, n_asan[0] if q else n_asan[1], salt=1)):
+        c.add(Run(harness, "asan", ["--seed", s, "--delay", profiles[(i + 1) % len(profiles)], "--watchdog", 60 if q else 240] +
+                  list(san_args(q)), weight=weight, tag="asan%d" % i, extra_sources=extra_sources,
+                  ldflags=ldflags, cflags=cflags, env=env))
+    for i, s in enumerate(seeds(seed, n_tsan[0] if q else n_tsan[1], salt=2)):
+        c.add(Run(harness, "tsan", ["--seed", s, "--delay", profiles[(i + 2) % len(profiles)], "--watchdog", 60 if q else 240] +
+                  list(san_args(q)), weight=weight, tag="tsan%d" % i, extra_sources=extra_sources,
+                  ldflags=ldflags, cflags=cflags, env=env))
+
+
+WAITLIST_HAMMER = ("FUTEX_WAIT_AFTER_UNLOCK", "BROADCAST_BEFORE_FUTEX", "WAITLIST_EXT_AFTER_WAKE",
+                   "SUSPEND_BEFORE_BLOCKED", "SUSPEND_AFTER_BLOCKED", "RESUME_AFTER_PUSH", "SIGNAL_EXT_AFTER_READY")
+
+
+@prop("C08")
+def c08(tier, seed):
+    c = Check("C08", tier, seed)
+    q = tier == "quick"
+    c.rule = ("each case = one seeded scenario: random configuration, a barrier with num_waiters 1..24 used for up to "
+              "max-rounds back-to-back rounds by ULT and external waiters (tasklet callers on a 1-waiter barrier), up to 3 "
+              "phases separated by ABT_barrier_reinit, plus an ABT_xstream_barrier phase on private-pool configurations; "
+              "non-trivial = waiters really blocked (WAITLIST_ULT_WAIT or futex wait seen); distinct = distinct "
+              "(variant, delay profile, configuration/phase signature)")
+    c.assumptions = ["arrival is counted immediately before the call and checked immediately after it returns"]
+    profiles = ["off", "uniform", hammer(*WAITLIST_HAMMER), "heavy"]
+    soup(c, "h_barrier", profiles, q, seed,
+         mon_args=lambda q: ["--scenarios", 8 if q else 20, "--max-rounds", 1500 if q else 8000],
+         san_args=lambda q: ["--scenarios", 4, "--max-rounds", 300],
+         squeeze_args=lambda q: ["--scenarios", 4, "--max-rounds", 300 if q else 1500])
+    c.nontrivial = lambda r: has_cov(r, "WAITLIST_ULT_WAIT")
+    c.required_points = ["WAITLIST_ULT_WAIT", "BROADCAST_ULT", "BROADCAST_EXT", "FUTEX_WAIT_AFTER_UNLOCK"]
+    c.required_counters = ["rounds", "reinits", "xstream_barrier_rounds", "reentered_while_others_leaving"]
+    return c
